@@ -147,4 +147,7 @@ class QTensorLinear(torch.autograd.Function):
 
 @register_qtensor_func([torch.nn.functional.linear])
 def linear(func, input, weight, bias=None):
+    if weight.ndim != 2:
+        # (a single vector of weights produces a scalar per input: the quantized matrix multiplications expect a matrix)
+        return qfallback(func, input, weight, bias)
     return QTensorLinear.apply(input, weight, bias)
